@@ -13,8 +13,8 @@ A *history* is a sequence of matrix symbols and ``"reset"``; it is run on ONE re
   (forward hook) must be the one it returned on the recompute call that opened the period (``ref``,
   named by the model), up to the max_norm rescaling of each call against its own matrix.
 
-Configuration space (spec/NashMTL.tla: NIters, Presentations): optim_niter, rows, max_norm binding or
-not, dtype, and the kind of matrix alphabet (ordinary / small / gauss / struggle).  The struggle
+Configuration space (spec/NashMTL.tla: NIters, clipOn, Presentations): optim_niter, rows, max_norm > 0
+(binding or not) or max_norm <= 0 (zero / negative: rescaling disabled, norm clause vacuous), dtype, and the kind of matrix alphabet (ordinary / small / gauss / struggle).  The struggle
 alphabets are found by a seeded search on the code under test (``find_struggle``); nothing is stored.
 
 Nothing here decides *which* calls recompute: that comes from TLC (scenario export / NEED lines).
@@ -35,7 +35,7 @@ SCALES = [1.0, 8.0, 1.0 / 16, 2.0, 1.0 / 4, 32.0, 1.0, 1.0 / 2]      # powers of
 ALPHABET_KINDS = ("ordinary", "small", "gauss", "struggle")
 SMALL = 2.0 ** -10                  # scale of the "small" alphabets
 COND_MAX = 20.0                     # gaussian candidates are kept only if cond <= COND_MAX
-CLIP = {"binding": 1.0, "loose": 3.0}
+CLIP = {"binding": 1.0, "loose": 3.0, "zero": 0.0, "negative": -1.0}   # ClipModes of the model -> max_norm
 SEARCHED_SLOTS = 2                  # struggle alphabets: symbols 2..1+SEARCHED_SLOTS are searched
 SEARCH_BUDGET = 48                  # candidates scanned per alphabet
 
@@ -66,6 +66,11 @@ def patch_solve_counter() -> None:
 
     cp.Problem.solve = counting_solve
     _patched[0] = True
+
+
+def clip_on(cfg: dict) -> bool:
+    """The model's clipOn of a configuration: the constructor's max_norm is positive."""
+    return float(cfg["max_norm"]) > 0
 
 
 def sym_index(sym: str) -> int:
@@ -426,7 +431,9 @@ def run_history(cfg: dict, k: int, events: list, chains: list | None, refs: list
             # 3 roundings; the combination itself adds gamma_m |w|^T|J| per coordinate
             tol_n = allowance(w_at[pos], J)
             nb = mn * (1 + 8 * EPS[J.dtype]) + float(torch.linalg.norm(tol_n))
-            rec["ok_norm"] = finite and (mn <= 0 or float(torch.linalg.norm(out)) <= nb)
+            # (recorded as observed; the clause is vacuous when max_norm <= 0 - the model decides, see
+            # Clause of TraceNashMTL.tla / _clause of checks/c19.py)
+            rec["ok_norm"] = finite and float(torch.linalg.norm(out)) <= nb
             rec["norm"] = float(torch.linalg.norm(out))
         ci += 1
         recs.append(rec)
@@ -437,9 +444,12 @@ def run_history(cfg: dict, k: int, events: list, chains: list | None, refs: list
 def config_list(presentations: list | None = None) -> list[dict]:
     """Presentations of the model (rows x clip mode x alphabet kind) x dtype, alphabet fastest."""
     if presentations is None:
-        presentations = [{"m": m, "clip": c, "alphabet": a} for m in (2, 3, 4, 5) for c in ("binding", "loose")
+        presentations = [{"m": m, "clip": c, "on": CLIP[c] > 0, "alphabet": a} for m in (2, 3, 4, 5) for c in CLIP
                          for a in ALPHABET_KINDS]
     pres = sorted(presentations, key=lambda p: (p["m"], p["clip"], ALPHABET_KINDS.index(p["alphabet"])))
+    for p in pres:
+        if bool(p["on"]) != (CLIP[p["clip"]] > 0):
+            raise ValueError(f"clip mode {p['clip']}: the model says clipOn = {p['on']}, max_norm = {CLIP[p['clip']]}")
     out = []
     for i, p in enumerate(pres):
         for dt in ("float64", "float32"):
